@@ -1,3 +1,175 @@
-/-! # C10 — property theorems (stub: nothing stated yet) -/
+import SR.Proofs.RewriteReindex
+/-!
+# C10 — symmetry reduction preserves verdicts; representatives stay in their orbit
+
+Property theorems only.  Parts (a) rewrite plans and (b) representative; part (c) (reduction in the DFS
+checker) is the lead's section at the end.
+
+Models: `DNM.planOf` (src/checker/rewrite_plan.rs `from_values_to_sort`), `RW.reindexO` (`reindex`),
+`RW.rwVal` (src/checker/rewrite.rs + network.rs + model_state.rs `Rewrite<Id>` impls over the value universe
+of `SR.Hash.Univ`), `RW.representative` (src/actor/model_state.rs).  A plan is the list `plan[i]` = new index
+of old index `i`.  `plan.rewrite(id)` PANICS for ids outside the plan: modelled as `none`.
+-/
 namespace SR.C10
+open SR SR.RW SR.Hash SR.DNM
+
+section plans
+variable {V : Type} (le : V → V → Bool)
+
+/-- (a) The plan is a bijection on the indices `0..n-1`. -/
+theorem C10_plan_perm (vs : List V) :
+    (planOf le vs).Perm (List.range vs.length) ∧ (planOf le vs).length = vs.length :=
+  ⟨planOf_perm le vs, planOf_length le vs⟩
+
+/-- (a) sorted: a strictly smaller value gets a strictly smaller new index (`le` = the values' `Ord`, total
+and transitive; `vs[i] < vs[j]` is `¬ vs[j] ≤ vs[i]`). -/
+theorem C10_plan_sorted (htr : ∀ a b c : V, le a b = true → le b c = true → le a c = true)
+    (hto : ∀ a b : V, (le a b || le b a) = true) (vs : List V) (i j : Nat) (hi : i < vs.length) (hj : j < vs.length)
+    (hlt : le vs[j] vs[i] = false) :
+    ∃ pi pj, (planOf le vs)[i]? = some pi ∧ (planOf le vs)[j]? = some pj ∧ pi < pj :=
+  planOf_sorted le htr hto vs i j hi hj hlt
+
+/-- (a) stable: among equal values (indeed whenever `vs[i] ≤ vs[j]`) the original order is kept — so the plan
+is THE stable sorting permutation. -/
+theorem C10_plan_stable (htr : ∀ a b c : V, le a b = true → le b c = true → le a c = true)
+    (hto : ∀ a b : V, (le a b || le b a) = true) (vs : List V) (i j : Nat) (hij : i < j) (hj : j < vs.length)
+    (hle : le (vs[i]'(by omega)) vs[j] = true) :
+    ∃ pi pj, (planOf le vs)[i]? = some pi ∧ (planOf le vs)[j]? = some pj ∧ pi < pj :=
+  planOf_stable le htr hto vs i j hij hj hle
+
+/-- (a) sorted + stable determine the plan completely: for `i < j`, `plan i < plan j` iff `vs[i] ≤ vs[j]`. -/
+theorem C10_plan_iff (htr : ∀ a b c : V, le a b = true → le b c = true → le a c = true)
+    (hto : ∀ a b : V, (le a b || le b a) = true) (vs : List V) (i j : Nat) (hij : i < j) (hj : j < vs.length) :
+    (∃ pi pj, (planOf le vs)[i]? = some pi ∧ (planOf le vs)[j]? = some pj ∧ pi < pj) ↔
+      le (vs[i]'(by omega)) vs[j] = true := by
+  constructor
+  · rintro ⟨pi, pj, e1, e2, h⟩
+    cases hle : le (vs[i]'(by omega)) vs[j] with
+    | true => rfl
+    | false =>
+      obtain ⟨qj, qi, f1, f2, h'⟩ := planOf_sorted le htr hto vs j i hj (by omega) hle
+      rw [e1] at f2; rw [e2] at f1
+      injection f1 with f1; injection f2 with f2
+      omega
+  · exact planOf_stable le htr hto vs i j hij hj
+end plans
+
+/-- (a) reindex: on success the result has the plan's length and holds the REWRITTEN element `i` at position
+`plan i`; it fails (panics) exactly when the collection is shorter than the plan or an element rewrite panics. -/
+theorem C10_reindex {α} (plan : List Nat) (hperm : plan.Perm (List.range plan.length))
+    (rw : α → Option α) (xs ys : List α) :
+    reindexO plan rw xs = some ys ↔
+      ys.length = plan.length ∧ ∀ i (hi : i < plan.length), (xs[i]?).bind rw = ys[plan[i]]? :=
+  reindexO_some_iff hperm rw xs ys
+
+/-- (a) reindex = the declarative placement (element `i` to position `plan i`) of the rewritten prefix. -/
+theorem C10_reindex_place {α} (plan : List Nat) (hperm : plan.Perm (List.range plan.length))
+    (rw : α → Option α) (xs : List α) :
+    reindexO plan rw xs = ((xs.take plan.length).mapM rw).bind (place plan) :=
+  reindexO_eq_place hperm rw xs
+
+/-- (a) `rewrite` commutes with the container structure: ids are mapped through the plan (`none` = panic
+outside it), scalars are untouched, every container rewrites its components and re-collects them
+(`BTreeMap`/`BTreeSet` re-sorted by the NEW keys, hash tables re-inserted), an `Envelope` rewrites src, dst and
+payload, a `Network` keeps its kind and rewrites its set / multiset / flow map (flow keys `(src,dst)` included). -/
+theorem C10_rewrite_containers (p : Nat → Option Nat) :
+    (∀ n : Nat, rwVal p .id n = p n) ∧
+    (∀ n : Nat, rwVal p .u8 n = some n) ∧ (∀ s : List Nat, rwVal p .str s = some s) ∧
+    (∀ (a b : Ty) (x : Val a × Val b), rwVal p (.tup a b) x = rwPair (rwVal p a) (rwVal p b) x) ∧
+    (∀ (t : Ty), rwVal p (Ty.opt t) (.inl ()) = some (.inl ())) ∧
+    (∀ (t : Ty) (x : Val t), rwVal p (Ty.opt t) (.inr x) = (rwVal p t x).map Sum.inr) ∧
+    (∀ (t : Ty) (l : List (Val t)), rwVal p (.vec t) l = l.mapM (rwVal p t)) ∧
+    (∀ (t : Ty) (l : List (Val t)), rwVal p (.deque t) l = l.mapM (rwVal p t)) ∧
+    (∀ (t : Ty) (l : List (Val t)), rwVal p (.bset t) l = (l.mapM (rwVal p t)).map (bsetCollect (cmpVal t))) ∧
+    (∀ (k v : Ty) (l : List (Val k × Val v)),
+      rwVal p (.bmap k v) l = (l.mapM (rwPair (rwVal p k) (rwVal p v))).map (bmapCollect (cmpVal k))) ∧
+    (∀ (t : Ty) (l : List (Val t)), rwVal p (.hset t) l = (l.mapM (rwVal p t)).map (hsetCollect (equivB t))) ∧
+    (∀ (k v : Ty) (l : List (Val k × Val v)),
+      rwVal p (.hmap k v) l = (l.mapM (rwPair (rwVal p k) (rwVal p v))).map (hmapCollect (equivB k))) ∧
+    (∀ (m : Ty) (src dst : Nat) (msg : Val m),
+      rwVal p (Ty.env m) (src, (dst, msg)) = rwPair p (rwPair p (rwVal p m)) (src, (dst, msg))) ∧
+    (∀ (m : Ty) (x : Val (.tup (.hset (Ty.env m)) (Ty.opt (Ty.env m)))),
+      rwVal p (Ty.net m) (.inl x) = (rwVal p _ x).map Sum.inl) ∧
+    (∀ (m : Ty) (x : Val (.hmap (Ty.env m) .usize)),
+      rwVal p (Ty.net m) (.inr (.inl x)) = (rwVal p _ x).map (Sum.inr ∘ Sum.inl)) ∧
+    (∀ (m : Ty) (x : Val (.bmap (.tup .id .id) (.deque m))),
+      rwVal p (Ty.net m) (.inr (.inr x)) = (rwVal p _ x).map (Sum.inr ∘ Sum.inr)) := by
+  refine ⟨?_, ?_, ?_, ?_, ?_, ?_, ?_, ?_, ?_, ?_, ?_, ?_, ?_, ?_, ?_, ?_⟩ <;> intros <;> rfl
+
+/-! ## (b) representative -/
+
+/-- (b) `representative` IS the image of the state under the one permutation `planOf st.actors` (the stable
+sorting permutation of the actor states): actor `i` — state, timers, pending choices, crash flag — moves to
+position `π i`; ids in actor states, envelopes, choices and history become `π id`; ids outside `0..n-1` and
+per-actor vectors shorter than `n` make both sides `none` (the real code panics).  Timer VALUES are moved but
+not rewritten (`applyPerm false`): `Timers::rewrite` is `clone` — see `C10_timer_ids_not_rewritten`. -/
+theorem C10_representative {s m t r hist : Ty} (st : St s m t r hist) :
+    representative st = applyPerm false (planOf (leVal s) st.actors) st := by
+  have hl := planOf_length (leVal s) st.actors
+  have hperm : (planOf (leVal s) st.actors).Perm (List.range (planOf (leVal s) st.actors).length) := by
+    rw [hl]; exact planOf_perm (leVal s) st.actors
+  unfold representative applyPerm
+  simp only [reindexO_eq_place hperm, mapM_id_some, Option.bind_some, Bool.false_eq_true, if_false,
+    Option.bind_eq_bind, Option.bind_assoc]
+
+/-- what "image under one permutation" means, spelled out: whenever `applyPerm` succeeds for a permutation `π`
+of `0..n-1`, position `π i` of every per-actor vector holds actor `i`'s (rewritten) entry, and network and
+history are rewritten by the same `π`. -/
+theorem C10_applyPerm_spec {s m t r hist : Ty} (b : Bool) (π : List Nat)
+    (hperm : π.Perm (List.range π.length)) (st st' : St s m t r hist) (h : applyPerm b π st = some st') :
+    st'.actors.length = π.length ∧ st'.timers.length = π.length ∧ st'.crashed.length = π.length ∧
+    st'.choices.length = π.length ∧
+    rwVal (planFn π) (Ty.net m) st.net = some st'.net ∧ rwVal (planFn π) hist st.history = some st'.history ∧
+    ∀ i (hi : i < π.length),
+      (st.actors[i]?).bind (rwVal (planFn π) s) = st'.actors[π[i]]? ∧
+      (st.timers[i]?).bind (if b then rwVal (planFn π) (Ty.timers t) else some) = st'.timers[π[i]]? ∧
+      st.crashed[i]? = st'.crashed[π[i]]? ∧
+      (st.choices[i]?).bind (rwChoiceMap (planFn π) r) = st'.choices[π[i]]? := by
+  have key : ∀ {α} (rw : α → Option α) (xs ys : List α),
+      ((xs.take π.length).mapM rw).bind (place π) = some ys →
+      ys.length = π.length ∧ ∀ i (hi : i < π.length), (xs[i]?).bind rw = ys[π[i]]? := by
+    intro α rw xs ys hh
+    rw [← reindexO_eq_place hperm] at hh
+    exact (reindexO_some_iff hperm rw xs ys).1 hh
+  unfold applyPerm at h
+  simp only [Option.bind_eq_bind] at h
+  cases ha : (st.actors.take π.length).mapM (rwVal (planFn π) s) with
+  | none => simp [ha] at h
+  | some a1 =>
+  cases ha2 : place π a1 with
+  | none => simp [ha, ha2] at h
+  | some a2 =>
+  cases hn : rwVal (planFn π) (Ty.net m) st.net with
+  | none => simp [ha, ha2, hn] at h
+  | some n1 =>
+  cases ht : (st.timers.take π.length).mapM (if b then rwVal (planFn π) (Ty.timers t) else some) with
+  | none => simp [ha, ha2, hn, ht] at h
+  | some t1 =>
+  cases ht2 : place π t1 with
+  | none => simp [ha, ha2, hn, ht, ht2] at h
+  | some t2 =>
+  cases hc : (st.choices.take π.length).mapM (rwChoiceMap (planFn π) r) with
+  | none => simp [ha, ha2, hn, ht, ht2, hc] at h
+  | some c1 =>
+  cases hc2 : place π c1 with
+  | none => simp [ha, ha2, hn, ht, ht2, hc, hc2] at h
+  | some c2 =>
+  cases hk : place π (st.crashed.take π.length) with
+  | none => simp [ha, ha2, hn, ht, ht2, hc, hc2, hk] at h
+  | some k2 =>
+  cases hh : rwVal (planFn π) hist st.history with
+  | none => simp [ha, ha2, hn, ht, ht2, hc, hc2, hk, hh] at h
+  | some h1 =>
+  simp only [ha, ha2, hn, ht, ht2, hc, hc2, hk, hh, Option.bind_some, Option.pure_def, Option.some.injEq] at h
+  subst h
+  obtain ⟨la, pa⟩ := key (rwVal (planFn π) s) st.actors a2 (by rw [ha]; exact ha2)
+  obtain ⟨lt, pt⟩ := key (if b then rwVal (planFn π) (Ty.timers t) else some) st.timers t2 (by rw [ht]; exact ht2)
+  obtain ⟨lc, pc⟩ := key (rwChoiceMap (planFn π) r) st.choices c2 (by rw [hc]; exact hc2)
+  obtain ⟨lk, pk⟩ := key some st.crashed k2 (by rw [mapM_id_some]; exact hk)
+  refine ⟨la, lt, lk, lc, rfl, rfl, fun i hi => ⟨pa i hi, pt i hi, ?_, pc i hi⟩⟩
+  have := pk i hi
+  cases hx : st.crashed[i]? <;> simpa [hx] using this
+
+-- (c) reduction: lead
+
 end SR.C10
